@@ -124,9 +124,10 @@ def e1_run(pid, tier, harnesses, modules, assumptions, bounds, functions, jobs=N
         okd, out = build_replayer(cdir, False)
         if okd:
             rnd = random.Random(seed() * 7919 + 13)
-            for h in harnesses:
-                if verdict[h.name] != "ok":
-                    continue
+            # the native sanity runs are a translation check, not the deciding step: at most ~400 harnesses are sampled
+            oks = [h for h in harnesses if verdict[h.name] == "ok"]
+            stride = max(1, len(oks) // 400)
+            for h in oks[::stride]:
                 for _ in range(native_samples):
                     items = [[rnd.randrange(256) for _ in range(16)] for _ in range(64)]
                     r_, _o = native_replay(cdir, h.name, items, False)
